@@ -19,11 +19,40 @@ def clean():
     return r.stdout.strip() == ""
 
 
+def match_expect(exp, keys):
+    """exp: substring of a violation key; `a, b` = alternatives; `x...y` = both parts in the same key; trailing prose in () ignored"""
+    if not exp:
+        return True
+    exp = exp.split(" (")[0]
+    for alt in exp.split(", "):
+        parts = [p for p in alt.strip().split("...") if p]
+        if any(all(p in k for p in parts) for k in keys):
+            return True
+    return False
+
+
+def seeded_entries():
+    """the independently written changes kept under seeded/<id>/ (breaking; expectation = the key recorded in meta.json)"""
+    out = []
+    base = os.path.join(V, "seeded")
+    for d in sorted(os.listdir(base)) if os.path.isdir(base) else []:
+        mp = os.path.join(base, d, "meta.json")
+        pp = os.path.join(base, d, "patch.diff")
+        if not (os.path.exists(mp) and os.path.exists(pp)):
+            continue
+        meta = json.load(open(mp))
+        prop = meta["property"]
+        exp = (meta.get("caught_by") or {}).get(prop)
+        out.append({"patch": "seeded/" + d, "abs": pp, "kind": "breaking", "props": [prop], "expect": {prop: exp} if exp else {}})
+    return out
+
+
 def main():
     only = None
     if "--only" in sys.argv:
         only = sys.argv[sys.argv.index("--only") + 1]
     idx = json.load(open(os.path.join(V, "mutants/index.json")))
+    idx["mutants"] = list(idx["mutants"]) + seeded_entries()
     if not clean():
         print("/repo has uncommitted changes; refusing to run")
         return 2
@@ -31,7 +60,7 @@ def main():
     for m in idx["mutants"]:
         if only and only not in m["patch"]:
             continue
-        patch = os.path.join(V, "mutants", m["patch"])
+        patch = m.get("abs") or os.path.join(V, "mutants", m["patch"])
         r = sh("git -C %s apply --check %s" % (REPO, patch))
         if r.returncode != 0:
             results.append((m["patch"], "SKIPPED (does not apply)", ""))
@@ -54,7 +83,7 @@ def main():
                     if exp is None:
                         ok = fired
                     else:
-                        ok = fired and any(exp in l for l in viol)
+                        ok = fired and match_expect(exp, viol)
                     verdicts.append((prop, "caught" if ok else ("MISSED (fired=%s keys=%s)" % (fired, [l.strip()[:120] for l in viol][:3]))))
                 else:
                     verdicts.append((prop, "silent" if not fired else "FALSE ALARM %s" % [l.strip()[:160] for l in viol][:3]))
